@@ -26,7 +26,9 @@ try:
         print("    " + a[:260])
     if rc == 0 and not alarms:
         os.makedirs("/verif/benign", exist_ok=True)
-        shutil.copy(patch, "/verif/benign/%s.diff" % name.replace(".diff", ""))
+        dst = "/verif/benign/%s.diff" % name.replace(".diff", "")
+        if os.path.abspath(patch) != dst:
+            shutil.copy(patch, dst)
     sys.exit(1 if alarms or rc else 0)
 finally:
     shutil.rmtree(scr, ignore_errors=True)
